@@ -37,7 +37,10 @@ end
 FN = r"""
 function p.%(fn)s(frame)
   local parent = frame:getParent()
-  return "\29A" .. dump(frame.args)
+  local both = tostring(frame.args["1"]) .. "\31" .. tostring(frame.args[1]) .. "\31" .. tostring(frame.args["2"]) .. "\31" .. tostring(frame.args[2]) .. "\31" .. tostring(frame.args["1"])
+  local pboth = ""
+  if parent then pboth = tostring(parent.args[1]) .. "\31" .. tostring(parent.args["1"]) .. "\31" .. tostring(parent.args[1]) end
+  return "\29B" .. both .. "\29Q" .. pboth .. "\29A" .. dump(frame.args)
     .. "\29T" .. (parent and parent:getTitle() or "\31nil")
     .. "\29P" .. (parent and dump(parent.args) or "")
     .. "\29R" .. frame:preprocess(%(frag)s)
@@ -127,12 +130,16 @@ def judge(o: Outcome, c, e, ob):
     raw = ob["raw"]
     pre, post = ("<", ">") if c["depth"] > 0 else ("", "")
     parts = raw.split(SEP)
-    if len(parts) != 8 or parts[0] != pre or parts[7] != post:
+    if len(parts) != 10 or parts[0] != pre or parts[9] != post:
         o.violation({**case, "got": raw[:400]}, "the string returned by the module does not replace the #invoke call verbatim", cls="envelope")
         return
-    got = {p[0]: p[1:] for p in parts[1:7]}
+    got = {p[0]: p[1:] for p in parts[1:9]}
     exp_args = amap(e["args"])
+    a1v, a2v = exp_args.get(1), exp_args.get(2)
+    pexp = amap(e["pargs"]) if e["hasParent"] else {}
     checks = [
+        ("frame.args read as ['1'], [1], ['2'], [2], ['1']", got["B"].split(US), [str(a1v), str(a1v), str(a2v), str(a2v), str(a1v)], None),
+        ("parent.args read as [1], ['1'], [1]", got["Q"].split(US) if e["hasParent"] else [], [str(pexp.get(1))] * 3 if e["hasParent"] else [], None),
         ("frame.args", parse_dump(got["A"]), exp_args, None),
         ("parent title", got["T"], e["ptitle"] if e["hasParent"] else US + "nil", None),
         ("parent args", parse_dump(got["P"]), amap(e["pargs"]) if e["hasParent"] else {}, None),
@@ -149,6 +156,11 @@ def judge(o: Outcome, c, e, ob):
         bad_meta = meta is not None and g != meta
         if bad_spec or bad_meta:
             devs = []
+            # the specification's value contains brace text produced by an expansion ({{((}}..{{))}}):
+            # the Lua side preprocesses argument strings again after they were substituted/expanded
+            spec_text = json.dumps(x, default=str)
+            if ("{{" in spec_text or "}}" in spec_text) and what != "frame:preprocess" and c["depth"] > 0:
+                devs = ["LuaArgumentsPreprocessedAgain"]
             if what in ("frame.args", "parent args") and isinstance(g, dict) and isinstance(x, dict):
                 pass
             o.classify({**case, "what": what, "got": g if not isinstance(g, dict) else {str(k): v for k, v in g.items()},
@@ -171,7 +183,8 @@ def run(tier: str) -> int:
     lib = {"T1": [{"w": "plain", "c": [tr.T(["("]), {"k": "p", "name": ["1"], "hasDef": False, "def": []}, tr.T([","]),
                                        {"k": "p", "name": ["x"], "hasDef": True, "def": [tr.T(["d"])]}, tr.T([")"])]}],
            "Sp": [{"w": "plain", "c": [tr.T(["SP", "v", "SP"])]}],
-           "St": [{"w": "plain", "c": [tr.T(["*"]), {"k": "p", "name": ["1"], "hasDef": False, "def": []}]}]}
+           "St": [{"w": "plain", "c": [tr.T(["*"]), {"k": "p", "name": ["1"], "hasDef": False, "def": []}]}],
+           "((": [{"w": "plain", "c": [tr.T(["{{"])]}], "))": [{"w": "plain", "c": [tr.T(["}}"])]}]}
     _G["lib"] = lib
     items = [(i, c["case"]) for i, c in enumerate(cases)]
     res = pmap(chunk_fn, items, chunk=max(20, len(items) // 64))
@@ -197,7 +210,8 @@ def selftest() -> int:
     o = Outcome(PID, "quick")
     _G["lib"] = {"T1": [{"w": "plain", "c": [tr.T(["("]), {"k": "p", "name": ["1"], "hasDef": False, "def": []}, tr.T([","]),
                                               {"k": "p", "name": ["x"], "hasDef": True, "def": [tr.T(["d"])]}, tr.T([")"])]}],
-                 "Sp": [{"w": "plain", "c": [tr.T(["SP", "v", "SP"])]}], "St": [{"w": "plain", "c": [tr.T(["*"]), {"k": "p", "name": ["1"], "hasDef": False, "def": []}]}]}
+                 "Sp": [{"w": "plain", "c": [tr.T(["SP", "v", "SP"])]}], "St": [{"w": "plain", "c": [tr.T(["*"]), {"k": "p", "name": ["1"], "hasDef": False, "def": []}]}],
+                 "((": [{"w": "plain", "c": [tr.T(["{{"])]}], "))": [{"w": "plain", "c": [tr.T(["}}"])]}]}
     for ob in chunk_fn([(i, c["case"]) for i, c in enumerate(cases)]):
         judge(o, cases[ob["idx"]]["case"], cases[ob["idx"]]["exp"], ob)
     print("violations after corrupting one expectation:", len(o.violations))
